@@ -851,6 +851,67 @@ func genFuncs() string {
 		fmt.Fprintf(&sb, "/-- %s createShimChannel (open handler): fields of the copied request URL that are overwritten before dialling -/\ndef websockets_rewriteTarget (host : Bytes) (u : WsUrl) : WsUrl := { u with %s }\n\n", rel, strings.Join(upd, ", "))
 	}
 
+	// 6e. sessions: attributes of the session cookie literal; Set-Cookie handling of the response writer
+	{
+		rel := "agent/sessions/sessions.go"
+		f := parseFile(rel)
+		fd := mustFunc(f, rel, "sessionResponseWriter", "WriteHeader")
+		var lit *ast.CompositeLit
+		ast.Inspect(fd, func(n ast.Node) bool {
+			if cl, ok := n.(*ast.CompositeLit); ok && src(cl.Type) == "http.Cookie" {
+				lit = cl
+			}
+			return true
+		})
+		if lit == nil {
+			fail("%s: session cookie literal not found", rel)
+		}
+		fields := map[string]string{}
+		for _, el := range lit.Elts {
+			kv := el.(*ast.KeyValueExpr)
+			fields[src(kv.Key)] = src(kv.Value)
+		}
+		for _, k := range []string{"Name", "Value", "Path", "Secure", "HttpOnly", "Expires"} {
+			if _, ok := fields[k]; !ok {
+				fail("%s: session cookie literal has no %s field", rel, k)
+			}
+		}
+		for k := range fields {
+			switch k {
+			case "Name", "Value", "Path", "Secure", "HttpOnly", "Expires":
+			default:
+				fail("%s: session cookie literal has an unexpected field %s", rel, k)
+			}
+		}
+		if fields["Name"] != "w.c.sessionCookieName" || fields["Value"] != "w.sessionID" || fields["Expires"] != "time.Now().Add(w.c.sessionCookieTimeout)" {
+			fail("%s: session cookie Name/Value/Expires changed: %v", rel, fields)
+		}
+		t := &tctx{pkg: "sessions", env: collectConsts(f), where: rel + ":session cookie", subst: map[string]string{"w.c.disableSSLForTest": "disableSSLForTest"}}
+		var pathE, secE, httpE ast.Expr
+		for _, el := range lit.Elts {
+			kv := el.(*ast.KeyValueExpr)
+			switch src(kv.Key) {
+			case "Path":
+				pathE = kv.Value
+			case "Secure":
+				secE = kv.Value
+			case "HttpOnly":
+				httpE = kv.Value
+			}
+		}
+		fmt.Fprintf(&sb, "/-- %s sessionResponseWriter.WriteHeader: (Path, Secure, HttpOnly) of the session cookie; Name = configured name, Value = session ID, Expires = now + configured lifetime (checked syntactically by goextract) -/\ndef sessions_cookieAttrs (disableSSLForTest : Bool) : Bytes × Bool × Bool := (%s, %s, %s)\n\n", rel, t.expr(pathE), t.expr(secE), t.expr(httpE))
+		// the writer deletes every Set-Cookie and adds only the session cookie
+		body := src(fd.Body)
+		for _, need := range []string{"header.Del(\"Set-Cookie\")", "header.Add(\"Set-Cookie\", sessionCookie.String())", "if w.sessionID == \"\" {"} {
+			if !strings.Contains(body, need) {
+				fail("%s: sessionResponseWriter.WriteHeader no longer contains %s", rel, need)
+			}
+		}
+		if strings.Count(body, "header.Add(") != 1 || strings.Count(body, "header.Set(") != 0 {
+			fail("%s: sessionResponseWriter.WriteHeader adds other header fields", rel)
+		}
+	}
+
 	// 7. tcpbridge routing predicate
 	{
 		rel := "utils/tcpbridge/connection/connection.go"
